@@ -119,7 +119,9 @@ def run_case(case):
         img, pcms, prefix = akai_image(names, lens, case.get("rates", "same"))
     else:
         img, pcms, prefix = roland_image(names, lens, case.get("rates", "same"))
-    res = tree.full_run(img, cpu_s=30.0, ls_paths=())
+    res = tree.full_run(img, cpu_s=30.0, ls_paths=(), again=len(names) <= 2 or "big" in case)
+    if res.get("again") and res["status"] == "ok":
+        return False, "second-export-differs", res["again"]
     stored = [n.rstrip(" ") for n in names]
     return judge(stored, lens, res, pcms, prefix)
 
